@@ -99,6 +99,24 @@ def gen_asm(rng: random.Random, n_ops: Optional[int] = None) -> dict:
     return {"kind": "asm", "ops": ops, "merged": merged}
 
 
+def gen_asm_dense(rng: random.Random) -> dict:
+    """Neighbouring cells whose sides nearly all carry one of 2..3 patch names that are all slaves: most shared
+    corners are touched by two or three slave patches, often by the same ones on both blocks."""
+    n = rng.randint(2, 4)
+    pool = rng.sample(NAMES, rng.randint(2, 3))
+    cells = [(i, j, 0) for i in range(2) for j in range(2)]
+    ops = []
+    for o in range(n):
+        rot = rng.choice(ROTS) if rng.random() < 0.5 else list(range(8))
+        pts = [[Fraction(cells[o][a] + CUBE[rot[c]][a]) + j for a, j in zip(range(3), _jit(rng))] for c in range(8)]
+        patches = {side: rng.choice(pool) for side in SIDES if rng.random() < 0.85}
+        ops.append({"points": [[str(c) for c in p] for p in pts], "patches": patches})
+    masters = [x for x in NAMES if x not in pool]
+    merged = [[rng.choice(masters), s] for s in pool]
+    rng.shuffle(merged)
+    return {"kind": "asm", "ops": ops, "merged": merged}
+
+
 def gen_adds(rng: random.Random) -> dict:
     """Direct `VertexList.add` sequences: lists (unsorted, with repetitions) and `None`."""
     nodes = [[Fraction(i), Fraction(j), Fraction(0)] for i in range(2) for j in range(2)]
@@ -152,8 +170,11 @@ class C05(core.Check):
     def gen_cases(self, rng: random.Random, tier: str) -> List[dict]:
         n = 260 if tier == "quick" else 2500
         cases: List[dict] = [gen_asm(rng) for _ in range(n)]
+        cases += [gen_asm_dense(rng) for _ in range(n // 5)]
         cases += [gen_adds(rng) for _ in range(n // 3)]
-        cases += [gen_shape(rng) for _ in range(6 if tier == "quick" else 30)]
+        for what in ["cyl-cyl", "cyl-ring", "box-grid", "hemi", "cyl-merged"]:
+            for order in (False, True):
+                cases.append({"kind": "shape", "what": what, "r": rng.choice([1, 2]), "order": order})
         if tier == "thorough":
             for _ in range(60):
                 base = gen_asm(rng, rng.randint(2, 4))
